@@ -282,6 +282,17 @@ static std::string public_dump(const upa::url& u) {
     return s;
 }
 
+// the raw stored representation (zeros of never-started parts included): input / expected output of the
+// operational setter model (Impl/SetRepApi.lean); printed after " %%" for every in-place edit
+static std::string g_step;
+static std::string raw_state(const upa::url& u) {
+    std::string s = hx(access::norm(u)) + " ";
+    for (int i = 0; i < upa::url::PART_COUNT; ++i) { if (i) s += ','; s += std::to_string(access::part_end(u, i)); }
+    const int si = access::scheme_index(u);
+    s += " " + std::to_string(access::flags(u)) + " " + std::to_string(access::seg(u)) + " " + std::to_string(si);
+    return s;
+}
+
 static std::string hidden_core(const upa::url& u) {
     std::string s = " seg=" + std::to_string(access::seg(u));
     const int si = access::scheme_index(u);
@@ -512,6 +523,8 @@ static std::string exec(const std::vector<std::string>& t, std::string& preds) {
         const std::string& s = t[2];
         upa::url& u = g_url[k];
         const bool alias = (g_line / 3) % 2;   // exercise the set_* aliases as well
+        const bool step = u.is_valid() && s != "href";
+        const std::string before = step ? raw_state(u) : std::string();
         const bool ret = with_arg(t[3], units, [&](auto&& a) {
             if (s == "href") return alias ? u.set_href(a) : u.href(a);
             if (s == "protocol") return alias ? u.set_protocol(a) : u.protocol(a);
@@ -524,6 +537,7 @@ static std::string exec(const std::vector<std::string>& t, std::string& preds) {
             if (s == "search") return alias ? u.set_search(a) : u.search(a);
             return alias ? u.set_hash(a) : u.hash(a);
         });
+        if (step) g_step = "set " + s + " " + t[3] + " " + t[4] + " " + (ret ? "1" : "0") + " | " + before + " | " + raw_state(u);
         return std::string("ret=") + (ret ? "1" : "0") + " " + obj_line(u, preds);
     }
     if (op == "dump" && t.size() == 2) {
@@ -557,6 +571,7 @@ static std::string exec(const std::vector<std::string>& t, std::string& preds) {
         auto E = [&](int i) { return t.size() > static_cast<std::size_t>(3 + 2 * i) ? t[3 + 2 * i] : std::string("8"); };
         std::string r = "-";
         auto& sp = u.search_params();
+        const std::string before = u.is_valid() ? raw_state(u) : std::string();
         if (o == "get") {}
         else if (o == "append") with_arg2(E(0), A(0), [&](auto&& n) { return with_arg2(E(1), A(1), [&](auto&& v) { sp.append(n, v); return true; }); });
         else if (o == "set") with_arg2(E(0), A(0), [&](auto&& n) { return with_arg2(E(1), A(1), [&](auto&& v) { sp.set(n, v); return true; }); });
@@ -590,6 +605,12 @@ static std::string exec(const std::vector<std::string>& t, std::string& preds) {
             const bool good = std::string(u.search().data(), u.search().size()) == want && u.is_null(upa::url::QUERY) == sp.empty();
             preds += good ? " ser=1" : " ser=0";
         }
+        // url_search_params::update(): the serialized list is written into the QUERY part in place ("remove" /
+        // "remove2" update only when something was removed, the queries never do)
+        if (u.is_valid() && (mutating || ((o == "remove" || o == "remove2") && r != "0")))
+            g_step = "update - 8 " + hx(sp.to_string()) + " 1 | " + before + " | " + raw_state(u);
+        else if (u.is_valid() && before != raw_state(u))
+            g_step = "none - 8 - 1 | " + before + " | " + raw_state(u);
         if (!u.is_valid()) r = "?";   // results read from the params object of an invalid URL are not compared
         return "r=" + r + " " + obj_line(u, preds);
     }
@@ -869,6 +890,7 @@ int main(int argc, char** argv) {
         alarm(30);   // watchdog: a hang kills the process, the orchestrator sees the truncated transcript
         const auto t = split(line);
         std::string out, preds;
+        g_step.clear();
         if (t.empty()) out = "?op";
         else {
             try {
@@ -881,6 +903,7 @@ int main(int argc, char** argv) {
         }
         std::cout << out;
         if (!preds.empty()) std::cout << " @@" << preds;
+        if (!g_step.empty()) std::cout << " %%" << g_step;
         std::cout << '\n';
         std::cout.flush();
     }
